@@ -1,4 +1,5 @@
 import Jrpc.Model.Json
+import Jrpc.GoPrelude
 /-!
 # JSON-RPC wire layer (properties C01 (pure half), C02, C13)
 
@@ -144,6 +145,15 @@ def scanParams (o : Option Bytes) : Bytes × List Code :=
     let p := if isNull val then [] else val
     let fb := firstByte p
     (p, if fb != 0 && fb != 91 && fb != 123 then [InvalidRequest] else [])
+
+/-- outbound parameter policy shared by `Client.marshalParams` and `Server.pushReq`, applied to the
+bytes `json.Marshal` produced: `null` means no parameters (member omitted), an array or object is
+transmitted as is, anything else is refused before anything is sent -/
+def outParams (bits : Bytes) : Jrpc.GoPrelude.ParamsDecision :=
+  if isNull bits then .leaveOut
+  else
+    let fb := firstByte bits
+    if fb != 91 && fb != 123 then .refuse else .keep bits
 
 def scanError (o : Option Bytes) : Bool × List Code :=
   match o with
@@ -299,6 +309,17 @@ def toJSON (j : OutMsg) : Bytes :=
    else match j.e with
      | some e => errorLit ++ e
      | none => []) ++ [125]
+
+/-- an outbound request as `Client.req` / `Server.pushReq` build it: `marshalled` is `none` for Go
+`nil` parameters, else the bytes `json.Marshal` produced; `none` = the call is refused, nothing sent -/
+def requestOut (id m : Bytes) (marshalled : Option Bytes) (batch : Bool := false) : Option OutMsg :=
+  match marshalled with
+  | none => some { id := id, m := m, batch := batch }
+  | some bits =>
+    match outParams bits with
+    | .leaveOut => some { id := id, m := m, batch := batch }
+    | .keep b => some { id := id, m := m, p := b, batch := batch }
+    | .refuse => none
 
 def joinComma : List Bytes → Bytes
   | [] => []
